@@ -182,6 +182,59 @@ def client_history(rep, fname):
                       asked=asked, frame_len=len(frame), got=got, earlier=[t[2] for t in trace[:3]])
 
 
+HISTORY_EVENTS = ['silent', 'normal', 'exc2', 'exc11', 'other11']
+
+
+def client_histories(rep, fname, maxlen=4):
+    """EVERY history of up to `maxlen` transactions on one client, each of them: the unit stays silent / sends the normal
+    reply / an exception reply with code 2 / the exception 0x0B a gateway sends for a target that did not respond / the same
+    from a second unit.  Whatever the client keeps about earlier transactions (its list of units that did not respond, the
+    framer's header, the transaction id), every reply that arrives must be returned, and read exactly - the port is asked for
+    the bytes of that frame, no more.  One designed exception (not a finding: the property quantifies over replies, not over
+    transport faults, which are C13's): the transaction that directly follows one the SAME unit did not answer is read in one
+    piece with the normal reply length (`_no_response_devices`); exactness is required again from the unit's first answer on."""
+    import itertools
+    from pymodbus.register_read_message import ReadHoldingRegistersResponse
+    fcls = FRAMERS[fname]
+    m = {'t': 'readHolding', 'address': 0, 'count': 10}
+    builder = StubClient(fcls).framer
+    for n in range(1, maxlen + 1):
+        for hist in itertools.product(HISTORY_EVENTS, repeat=n):
+            if hist[-1] == 'silent':
+                continue          # nothing to read in the last call: a prefix of a longer history
+            c = StubClient(fcls, b'')
+            rep.case(('histories', fname, hist), nontrivial=True, tag='client-histories:' + fname)
+            last_silent = {1: False, 2: False}
+            for i, ev in enumerate(hist):
+                unit = 2 if ev == 'other11' else 1
+                after_silence, last_silent[unit] = last_silent[unit], ev == 'silent'
+                req = msggen.mk_req(m)
+                req.unit_id = unit
+                reply = {'silent': None, 'normal': ReadHoldingRegistersResponse(list(range(10))), 'exc2': ExceptionResponse(3, 2),
+                         'exc11': ExceptionResponse(3, 11), 'other11': ExceptionResponse(3, 11)}[ev]
+                frame = b''
+                if reply is not None:
+                    reply.unit_id = unit
+                    reply.transaction_id = (c.transaction.tid + 1) & 0xFFFF
+                    frame = builder.buildPacket(reply)
+                c.reply, c.pos, c.asked = frame, 0, []
+                try:
+                    got = c.transaction.execute(req)
+                    got = {'error_object': True} if isinstance(got, Exception) else pdus.resp_to_json(got)
+                except Exception as e:  # noqa
+                    got = {'raised': errkind(e)}
+                if reply is None:
+                    continue
+                expect = pdus.resp_to_json(ClientDecoder().decode(bytes([reply.function_code]) + reply.encode()))
+                asked = list(c.asked)
+                over = bool(asked) and all(a is not None for a in asked) and sum(asked) != len(frame) and not after_silence
+                if got != expect or over:
+                    rep.violation('after a history of transactions the client did not read exactly the reply that arrived',
+                                  {'kind': 'client-histories', 'framer': fname, 'history': list(hist[:i + 1])},
+                                  asked=asked, frame_len=len(frame), got=got, expected=expect)
+                    break
+
+
 def client_retries(rep, fname):
     """a client that RETRIES (retry_on_empty): the unit was silent for a whole call, then is silent on the first attempt of
     the next call and answers the retry — with an exception reply, or with the normal reply.  On every attempt the
@@ -457,6 +510,7 @@ def run(ctx):
                           predicted=pred, real=real)
     for fname in framer_names:
         client_history(rep, fname)
+        client_histories(rep, fname)
         if fname in ('rtu', 'ascii', 'binary'):
             client_echo(rep, fname)
             client_retries(rep, fname)
